@@ -602,14 +602,14 @@ class Interp:
             fv = self.operand(st, fr, f)
             return self.apply_callable(st, fv, args, site)
         fn = f['fn']
-        return self.call_fn(st, fn, args, t['argtys'], site, fr.subst, t.get('dest_ty'))
+        return self.call_fn(st, fn, args, t['argtys'], site, fr.subst, t.get('dest_ty'), fr)
 
-    def call_fn(self, st, fn, args, argtys, site, subst, dest_ty=None):
+    def call_fn(self, st, fn, args, argtys, site, subst, dest_ty=None, frame=None):
         res = fn.get('res')
         name = res['def'] if res else fn['def']
         targs = tuple(self.subst_ty(a, subst) for a in (res['args'] if res else fn['args']))
         info = {'name': name, 'targs': targs, 'fn': fn, 'site': site, 'argtys': argtys,
-                'trait': fn.get('trait'), 'orig': fn['def'], 'dest_ty': dest_ty,
+                'trait': fn.get('trait'), 'orig': fn['def'], 'dest_ty': dest_ty, 'frame': frame,
                 'self_ty': self.subst_ty(fn.get('self_ty', ''), subst)}
         import models
         m = models.lookup(self, info)
